@@ -28,6 +28,7 @@
 From Coq Require Import String.
 From Verif Require Import Common C15_Model C15_Spec C15_Proofs C15_BindModel C15_BindSpec C15_BindProofs.
 From Verif Require Import C15_EncModel C15_EncSpec C15_EncProofs.
+From Verif Require Import C15_MultiModel C15_MultiSpec C15_MultiProofs.
 
 (* ---- the search ---- *)
 
@@ -477,3 +478,86 @@ Example C15_enc_example :
   /\ P_enc (None, 5)%N ex_echain [EResp [] ex_eout1; EResp [] ex_eout2] ex_ereq
            [(((None, 0), (None, 3)), ex_ereq)]%N (ERSuccess ex_eout1) = false.
 Proof. repeat split; try (vm_compute; reflexivity). now right; left. Qed.
+
+(* ---- several CRDs served by one operator (C15_MultiModel: ChainStorage.Chains per CRD name, the links of the
+        conversion bindings per CRD name; C15_MultiSpec: a request is judged against the rules declared for ITS
+        CRD).  All configurations (any number of CRDs, any declared rules, coinciding version names or not),
+        all sessions (any interleaving of requests for any CRDs, known to the operator or not). ---- *)
+
+(* the answers given to the requests for CRD x, in any session on one operator, are the answers that the Chain
+   of x alone (its declared rules, its initial cache - the single-CRD model of the sections above) gives to
+   those requests alone: what other CRDs declare and what was asked for them plays no part *)
+Theorem C15_multi_is_single : forall decls reqs x,
+  answers_for x reqs (find_session (build decls) reqs) =
+  find_shared (declared_for decls x) (base_cache (declared_for decls x)) (queries_for x reqs).
+Proof. exact multi_is_single. Qed.
+Print Assumptions C15_multi_is_single.
+
+(* ... and they are the answers of a fresh operator that was configured with the declarations for x only and
+   was asked the requests for x only *)
+Theorem C15_multi_is_alone : forall decls reqs x,
+  answers_for x reqs (find_session (build decls) reqs) = find_session (build (only x decls)) (only x reqs).
+Proof. exact multi_is_alone. Qed.
+Print Assumptions C15_multi_is_alone.
+
+(* every request of every session is answered with a valid chain of rules declared for its own CRD when one
+   exists, and fails otherwise.  Domain as above, per CRD: CRD x has one group, g x. *)
+Theorem C15_multi_session_meets_spec : forall g decls, (forall x, rules_dom (g x) (declared_for decls x)) ->
+  forall reqs, (forall x q, In (x, q) reqs -> dom (g x) (r_from q) /\ dom (g x) (r_to q)) ->
+  all_P_multi decls reqs (find_session (build decls) reqs) = true.
+Proof. exact multi_session_meets_spec. Qed.
+Print Assumptions C15_multi_session_meets_spec.
+
+(* the same from any state of the operator that earlier requests can have left behind *)
+Theorem C15_multi_meets_spec : forall g decls, (forall x, rules_dom (g x) (declared_for decls x)) ->
+  forall reqs, (forall x q, In (x, q) reqs -> dom (g x) (r_from q) /\ dom (g x) (r_to q)) ->
+  forall st, st_inv g decls st -> all_P_multi decls reqs (find_session st reqs) = true.
+Proof. exact multi_meets_spec. Qed.
+Print Assumptions C15_multi_meets_spec.
+
+(* the chains the operator finds consist of rules that have a hook FOR THE REQUEST'S CRD ... *)
+Theorem C15_multi_chain_linked : forall g decls st x q p, (forall x, rules_dom (g x) (declared_for decls x)) ->
+  dom (g x) (r_from q) -> st_inv g decls st -> snd (find_m st x q) = Some p ->
+  forallb (has_link (declared_for decls x)) p = true.
+Proof. exact multi_chain_linked. Qed.
+Print Assumptions C15_multi_chain_linked.
+
+(* ... such a chain is served exactly as the single-CRD model says, whatever the CRD is called and whatever
+   else is declared, so every clause of P_handler holds ... *)
+Theorem C15_serve_m_linked : forall crd rules dtext desired chain outs req, forallb (has_link rules) chain = true ->
+  serve_m crd rules dtext desired chain outs req = serve dtext desired chain outs req.
+Proof. exact serve_m_linked. Qed.
+Print Assumptions C15_serve_m_linked.
+
+Theorem C15_serve_m_meets_spec : forall crd rules dtext desired chain outs req t r,
+  forallb (has_link rules) chain = true ->
+  serve_m crd rules dtext desired chain outs req = (t, r) -> P_handler desired chain outs req t r = true.
+Proof. exact serve_m_meets_spec. Qed.
+Print Assumptions C15_serve_m_meets_spec.
+
+(* ... whereas a chain that starts with a rule not declared for the request's CRD (another CRD's rule) runs no
+   hook and is answered with a Failure *)
+Theorem C15_serve_m_no_link : forall crd rules dtext desired r rest outs req, has_link rules r = false -> extract req <> [] ->
+  serve_m crd rules dtext desired (r :: rest) outs req = ([], RFailure (no_hook_text_m crd)).
+Proof. exact serve_m_no_link. Qed.
+Print Assumptions C15_serve_m_no_link.
+
+(* non-vacuity: three CRDs whose version names coincide (short 4 = v1alpha1, 2 = v1beta1, 0 = v1; group 1) and whose
+   graphs differ: crontabs v1alpha1 -> v1beta1 -> v1, backups v1alpha1 -> v1 directly, reports only v1 -> v1alpha1;
+   the same pair asked for each, back and forth, and for a CRD the operator does not know *)
+Definition ex_decls : list (N * rule) :=
+  [(0, ((Some 1, 4), (Some 1, 2))); (1, ((None, 4), (None, 0))); (0, ((None, 2), (None, 0))); (2, ((None, 0), (None, 4)))]%N.
+Definition ex_pair : rule := ((Some 1, 4), (Some 1, 0))%N.
+Definition ex_mreqs : list (N * rule) := [(0, ex_pair); (1, ex_pair); (2, ex_pair); (7, ex_pair); (1, ex_pair); (0, ex_pair)]%N.
+Example C15_multi_hyp_met :
+  (forall x, rules_dom 1%N (declared_for ex_decls x)) /\
+  (forall x q, In (x, q) ex_mreqs -> dom 1%N (r_from q) /\ dom 1%N (r_to q)) /\
+  map (option_map (@length rule)) (find_session (build ex_decls) ex_mreqs) = [Some 2; Some 1; None; None; Some 1; Some 2]%nat /\
+  forallb (fun p => in_domain (declared_for ex_decls (fst p)) (fst (snd p)) (snd (snd p))) ex_mreqs = true.
+Proof.
+  split; [|split; [|split; vm_compute; reflexivity]].
+  - intros x r Hr. unfold declared_for in Hr. apply in_map_iff in Hr. destruct Hr as (d & <- & Hd).
+    apply filter_In in Hd. destruct Hd as [Hd _].
+    repeat (destruct Hd as [<- | Hd]; [split; cbv; auto|]). destruct Hd.
+  - intros x q Hq. repeat (destruct Hq as [Hq | Hq]; [injection Hq as <- <-; split; cbv; auto|]). destruct Hq.
+Qed.
